@@ -94,4 +94,27 @@ theorem wfInsn_imm {i : Insn} (h : wfInsn i = true) (ha : isAlu i = true) :
     · exact Or.inr (Or.inl h)
     · exact Or.inr (Or.inr h)
 
+/-- rule (7) contains `immOk`: what `wfInsn` accepts has a legal constant shift count / a non-zero constant divisor -/
+theorem wfInsn_immOk {i : Insn} (h : wfInsn i = true) : immOk i = true := by
+  unfold immOk
+  cases ha : isAlu i with
+  | false => simp
+  | true =>
+    cases hu : useReg i with
+    | true => simp
+    | false =>
+      obtain ⟨h1, h2, _⟩ := wfInsn_imm h ha
+      simp only [Bool.not_false, Bool.and_self, Bool.not_true, Bool.false_or]
+      split
+      · rename_i hc
+        have hc' : code i = 6 ∨ code i = 7 ∨ code i = 12 := by
+          simpa [Bool.or_eq_true, or_assoc] using hc
+        have := h1 hu hc'
+        simp [this.1, this.2]
+      · split
+        · rename_i hc
+          have hc' : code i = 3 ∨ code i = 9 := by simpa [Bool.or_eq_true] using hc
+          simpa using h2 hu hc'
+        · rfl
+
 end Ebv.C05
